@@ -208,7 +208,7 @@ func readZipBased(typ, fpath string, data []byte, py *Py) (*Payload, error) {
 					p.SigItems = append(p.SigItems, "_rels/.rels#origin")
 				}
 				if s != "" {
-					p.add("_rels/.rels#relationships", "", []byte(s))
+					p.Items = append(p.Items, Item{Name: "_rels/.rels#relationships", Data: []byte(s), Floating: true})
 				}
 				continue
 			case e.Name == "[Content_Types].xml":
@@ -216,7 +216,7 @@ func readZipBased(typ, fpath string, data []byte, py *Py) (*Payload, error) {
 				if err != nil {
 					return nil, fmt.Errorf("vsix: [Content_Types].xml: %w", err)
 				}
-				p.add("[Content_Types].xml#entries", "", []byte(s))
+				p.Items = append(p.Items, Item{Name: "[Content_Types].xml#entries", Data: []byte(s), Floating: true})
 				continue
 			}
 		case "appx":
@@ -233,7 +233,7 @@ func readZipBased(typ, fpath string, data []byte, py *Py) (*Payload, error) {
 				if err != nil {
 					return nil, fmt.Errorf("appx: %s: %w", e.Name, err)
 				}
-				p.add(e.Name+"#xml", e.Meta2(), []byte(s))
+				p.Items = append(p.Items, Item{Name: e.Name + "#xml", Data: []byte(s), Floating: true})
 				continue
 			}
 		}
@@ -244,9 +244,6 @@ func readZipBased(typ, fpath string, data []byte, py *Py) (*Payload, error) {
 	}
 	return p, nil
 }
-
-// Meta2 keeps only the method (used for members relic re-creates by design).
-func (e zipEntry) Meta2() string { return "" }
 
 func clipName(s string) string {
 	if len(s) > 40 {
@@ -322,7 +319,7 @@ func parseManifestSections(b []byte) ([]mfSection, error) {
 
 func isDigestAttr(name string) bool {
 	n := strings.ToLower(name)
-	return strings.HasSuffix(n, "-digest") || strings.Contains(n, "-digest-") || n == "magic" && false
+	return strings.HasSuffix(n, "-digest") || strings.Contains(n, "-digest-")
 }
 
 func canonAttrs(attrs [][2]string, dropDigests bool) string {
@@ -345,14 +342,14 @@ func manifestItems(name string, b []byte) ([]Item, error) {
 	}
 	var out []Item
 	if len(secs) == 0 {
-		return []Item{{Name: name + "#main"}}, nil
+		return []Item{{Name: name + "#main", Floating: true}}, nil
 	}
 	first := 0
 	if len(secs[0].attrs) > 0 && !strings.EqualFold(secs[0].attrs[0][0], "Name") {
-		out = append(out, Item{Name: name + "#main", Data: []byte(canonAttrs(secs[0].attrs, false))})
+		out = append(out, Item{Name: name + "#main", Data: []byte(canonAttrs(secs[0].attrs, false)), Floating: true})
 		first = 1
 	} else {
-		out = append(out, Item{Name: name + "#main"})
+		out = append(out, Item{Name: name + "#main", Floating: true})
 	}
 	for _, s := range secs[first:] {
 		ename := ""
@@ -365,7 +362,7 @@ func manifestItems(name string, b []byte) ([]Item, error) {
 		if c == "" {
 			continue // only Name + digests: owned by the signing tool
 		}
-		out = append(out, Item{Name: name + "#entry:" + ename, Data: []byte(c)})
+		out = append(out, Item{Name: name + "#entry:" + ename, Data: []byte(c), Floating: true})
 	}
 	return out, nil
 }
